@@ -92,7 +92,12 @@ pub fn check(info: &LangInfo, text: &[u8], xt: &XTree, ranges: Option<&[Range]>)
             for b in nd.start..nd.end { covered[b] = true; }
             if !nd.named && !nd.missing && !nd.is_error && nd.kind_id == nd.grammar_id {
                 if let Some(kind) = info.language.node_kind_for_id(nd.kind_id) {
-                    if info.literal_kinds.contains(kind) && &text[nd.start..nd.end] != kind.as_bytes() {
+                    // with included ranges a token may run across an excluded gap: its text is what the included parts spell
+                    let covered_text: Vec<u8> = match ranges {
+                        Some(rs) => (nd.start..nd.end).filter(|&b| rs.iter().any(|r| r.start_byte <= b && b < r.end_byte)).map(|b| text[b]).collect(),
+                        None => text[nd.start..nd.end].to_vec(),
+                    };
+                    if info.literal_kinds.contains(kind) && covered_text != kind.as_bytes() {
                         out.push(f("literal-token-text", format!("anonymous node #{} kind {:?} covers {:?}", i, kind, String::from_utf8_lossy(&text[nd.start..nd.end]))));
                     }
                 }
